@@ -171,9 +171,18 @@ func c17Deleted(e *c17Env, spec string) (ds []disc) {
 	if !acc {
 		return
 	}
+	var pending [2]string // upload ID and part ETag of an upload left pending
 	switch use {
 	case "head":
 		s3x.Do(e.st.Handler, &s3x.Req{Method: "HEAD", Path: "/" + name})
+	case "upload":
+		// a multipart upload is pending when the bucket goes (the backend holds nothing for it yet)
+		x := s3x.Do(e.st.Handler, &s3x.Req{Method: "POST", Path: "/" + name + "/d/mp", Query: s3x.Q("uploads", s3x.Bare)})
+		var d s3x.InitiateDoc
+		if x.Status == 200 && x.XML(&d) == nil {
+			pr := s3x.Do(e.st.Handler, &s3x.Req{Method: "PUT", Path: "/" + name + "/d/mp", Query: s3x.Q("partNumber", "1", "uploadId", d.UploadId), Body: []byte("part one")})
+			pending = [2]string{d.UploadId, pr.Header.Get("ETag")}
+		}
 	case "object", "object-left":
 		put(e.st, name, "d/obj", []byte("x"))
 		get(e.st, name, "d/obj")
@@ -222,6 +231,21 @@ func c17Deleted(e *c17Env, spec string) (ds []disc) {
 		for _, d := range e.checkList() {
 			d.Detail = fmt.Sprintf("after %s %s (scenario %s): ", probe[0], probe[1], spec) + d.Detail
 			ds = append(ds, d)
+		}
+	}
+	if pending[0] != "" {
+		// finishing the upload that outlived its bucket must not bring the bucket back
+		x := "<CompleteMultipartUpload><Part><PartNumber>1</PartNumber><ETag>" + xmlEsc(pending[1]) + "</ETag></Part></CompleteMultipartUpload>"
+		pr := s3x.Do(e.st.Handler, &s3x.Req{Method: "POST", Path: "/" + name + "/d/mp", Query: s3x.Q("uploadId", pending[0]), Body: []byte(x)})
+		if pr.Panic != "" {
+			fail("panic", "complete the upload of the deleted bucket: %s at %s", pr.Panic, pr.PanicSite)
+		}
+		for _, d := range e.checkList() {
+			d.Detail = fmt.Sprintf("after completing (answer %d) the multipart upload that was pending when the bucket was deleted (scenario %s): ", pr.Status, spec) + d.Detail
+			ds = append(ds, d)
+		}
+		if h := s3x.Do(e.st.Handler, &s3x.Req{Method: "HEAD", Path: "/" + name}); h.Status == 200 {
+			fail("deleted-bucket-answers", "HEAD /%s answers 200 after the pending upload of the deleted bucket was completed", name)
 		}
 	}
 	// the name is valid and free again
@@ -325,7 +349,7 @@ func c17InFlight(e *c17Env, via string) (ds []disc, reached bool) {
 	return append(ds, e.checkList()...), reached
 }
 
-var c17DeletedSpecs = []string{"plain:none", "plain:head", "plain:object", "plain:object-left", "force:none", "force:head", "force:object", "force:object-left"}
+var c17DeletedSpecs = []string{"plain:upload", "force:upload", "plain:none", "plain:head", "plain:object", "plain:object-left", "force:none", "force:head", "force:object", "force:object-left"}
 
 func c17Replay(check string, raw json.RawMessage) ([]disc, error) {
 	var cs c17Case
